@@ -33,6 +33,10 @@ def _check_class(chk, ex, found, mod, cls):
         c = ex.cls(mod, cls)
         load = c.lookup("load")[0]
         name = cls + ".load"
+        # (0) the loader is a plain function of the file: nothing (a memoising decorator, say) can hand
+        #     back a sketch without opening the file
+        decos = [getattr(d, "id", getattr(d, "attr", getattr(getattr(d, "func", None), "id", getattr(getattr(d, "func", None), "attr", "?")))) for d in load.node.decorator_list]
+        _wrappers.row(chk, name + ":no-decorator-but-staticmethod", all(d in ("staticmethod", "classmethod") for d in decos), decos, found)
         # (1) no handler can swallow an error of np.load or of a member read
         _wrappers.row(chk, name + ":no-exception-handler", not handlers_in(load.node), "try/except inside the loader", found)
         # (1b) save() hands the *path* to np.savez (numpy then creates / truncates the file itself) and
